@@ -339,6 +339,12 @@ func run(c *core.Ctx) {
 	nilStream(c)
 
 	c.CountN("map_paths_compared_with_model", pathsCompared)
+	for b, name := range []string{"lock", "promote", "expunge"} {
+		c.CountN("map_paths_compared_with_bit_"+name, pathBits[b])
+		if !c.NoModel && pathBits[b] == 0 {
+			c.Unobservable("no call whose sync2.Map path has the " + name + " bit set was recorded for the model: that part of the layout machine of SyncMap/Seq.v is not being validated")
+		}
+	}
 	if !c.NoModel && pathsCompared == 0 {
 		c.Unobservable("no sync2.Map path (lock / promote / expunge hook labels) was recorded for the model: the layout machine of SyncMap/Seq.v is not being validated")
 	}
@@ -828,6 +834,9 @@ func expand(ops []Op) []Op {
 // pathsCompared counts the calls whose Map paths were recorded for the model (see run: must not stay 0).
 var pathsCompared int
 
+// pathBits counts the recorded paths in which the lock / promote / expunge bit is set (each must be seen).
+var pathBits [3]int
+
 func exec(c *core.Ctx, cs Case) {
 	c.Begin(cs)
 	c.Count("cases_" + strings.SplitN(cs.Tag, " ", 2)[0])
@@ -1214,6 +1223,11 @@ func exec(c *core.Ctx, cs Case) {
 			if recording {
 				paths = strconv.Itoa(mask)
 				pathsCompared++
+				for b := 0; b < 3; b++ {
+					if mask>>b&1 == 1 {
+						pathBits[b]++
+					}
+				}
 			}
 			recording = false
 			terms = append(terms, "("+term+", "+obs+", "+paths+")")
